@@ -23,7 +23,7 @@ LEVEL_TEXT = ("Random points of the quantified parameter box (N 1-60, theta_s (0
 LEVEL_NOTE = "Tolerances 1e-9*h on depth identities; N = 1 has no level pair: index validity is required only where the weight is non-zero. Trusts icontract (evaluation counts reported; zero => inconclusive)."
 RULE = ("case = chunk of random parameter points; every point calls s_stretch (rho,w), sdepth (rho,w) and z2s for ~40 depths per column; some chunks build a real "
         "ROMS.Grid from a generated file and from Vinfo. Non-trivial point: N >= 2 and stretched (theta_s > 0.5); distinct by rounded parameters.")
-MANDATORY = ["bathymetry_not_c_contiguous", "z2s_calls_over_many_cells", "post_s_stretch", "post_sdepth", "post_z2s", "vtransform1", "vtransform2", "vstretching1", "vstretching2", "vstretching4",
+MANDATORY = ["grid_file_with_Tcline", "bathymetry_not_c_contiguous", "z2s_calls_over_many_cells", "post_s_stretch", "post_sdepth", "post_z2s", "vtransform1", "vtransform2", "vstretching1", "vstretching2", "vstretching4",
              "depth_above_surface", "depth_below_bottom", "depth_on_level", "grid_from_file", "grid_from_vinfo", "N1", "vinfo_dictionary_reused", "grid_file_without_Vtransform", "grid_file_with_Vstretching"]
 ASSUMPTIONS = ["zeta = 0 (ladim ignores sea-surface elevation)", "Vtransform 1 only with hc <= min(h), as the property quantifies"]
 TIMEOUT = {"quick": 600, "thorough": 3000}
@@ -206,6 +206,11 @@ def run_case(case: dict[str, Any], wd: Path) -> dict[str, Any]:
             Xm = np.array([float(c_[1]) for c_ in cells]) + rng.uniform(-0.49, 0.49, size=len(cells))
             Ym = np.array([float(c_[0]) for c_ in cells]) + rng.uniform(-0.49, 0.49, size=len(cells))
             Zm = np.array([float(rng.uniform(-0.05, 1.05)) * float(h[c_]) for c_ in cells])
+            # ... and particles exactly on the edge between two cells (k + 0.5 with k even: the column is the one numpy's rounding gives, as in the sampling of the fields)
+            ties = [(0.5, 1.0), (2.5, 0.0), (1.0, 0.5), (2.5, 0.5), (0.5, 2.0)]
+            Xm = np.concatenate([Xm, [t_[0] for t_ in ties]])
+            Ym = np.concatenate([Ym, [t_[1] for t_ in ties]])
+            Zm = np.concatenate([Zm, [0.5 * float(h[int(np.around(t_[1])), int(np.around(t_[0]))]) for t_ in ties]])
             guarded("z2s (particles in many cells)", p, R.z2s, zr, Xm, Ym, Zm)
             bump("z2s_calls_over_many_cells")
             if N >= 2 and p["theta_s"] > 0.5:
@@ -227,6 +232,9 @@ def run_case(case: dict[str, Any], wd: Path) -> dict[str, Any]:
         if p["Vtransform"] == 1 and case["idx"] % 4 == 0:
             spec["vert"]["write_Vtransform"] = False  # files of older ROMS versions carry no Vtransform variable: transform 1
             bump("grid_file_without_Vtransform")
+        if case["idx"] % 2 == 1:
+            spec["vert"]["Tcline"] = float(hc) + [40.0, 190.0][case["idx"] % 4 // 2]  # other ROMS parameters in the file, different from hc
+            bump("grid_file_with_Tcline")
         if case["idx"] % 3 == 0:
             spec["vert"]["write_Vstretching"] = True
             bump("grid_file_with_Vstretching")
